@@ -157,3 +157,9 @@ def same(a, b):
     if math.isnan(a) and math.isnan(b):
         return True
     return a == b
+
+
+def tight(a, b):
+    """two real-code results that should agree, but may have been computed with the operations in another order
+    (a refactor may change the last bits): relative 1e-12"""
+    return close(a, b, rel=1e-12, abs_=1e-15)
